@@ -98,7 +98,9 @@ def make_case(rng, kind):
         def L(i, re_, pr, t, ps=None):
             return encode.leeds_line({"reactants": re_, "products": pr, "idx": i, "alpha": 1.0, "beta": 0.0, "gamma": 0.0, "tmin": 0, "tmax": 0, "rtype": t, "pseudo": ps})
         d["lines"] = {"net.leeds": [L(1, ["CO"], ["GCO"], 7), L(2, ["GCO"], ["CO"], 8), L(3, ["H2O"], ["GH2O"], 7), L(4, ["GH2O"], ["H2O"], 10, "PHOTON"),
-                                    L(5, ["GCO"], ["CO"], 9, "CRP")]}
+                                    L(5, ["GCO"], ["CO"], 9, "CRP"),
+                                    # grains as species in two charge states: the grain density is derived from their sum, in a fixed order
+                                    L(6, ["e-", "GRAIN0"], ["GRAIN-"], 20), L(7, ["C+", "GRAIN-"], ["C", "GRAIN0"], 6), L(8, ["H+", "GRAIN-"], ["H", "GRAIN0"], 6)]}
         d["formats"] = ["leeds"]
         d["grain_model"] = "hh93"
         d["binding"] = {"GH2O": round(rng.uniform(4000, 6000), 1)}     # GCO relies on the RATE12 table
